@@ -729,10 +729,17 @@ func subtree(v any) *tree {
 
 func reproduces(c *core.Ctx, spec gens.JPExpr, t *tree, f finding) (finding, bool) {
 	o := &only{eval: f.eval, family: gens.ReprFamily(f.repr), kind: f.kind}
-	fs, _ := examine(c, spec, spec.Build(), t, o)
-	for _, g := range fs {
-		if g.eval == f.eval && g.kind == f.kind {
-			return g, true
+	rounds := 1
+	if t.multi {
+		rounds = 3 // the outcome may depend on the map order the evaluator meets
+	}
+	x := spec.Build()
+	for i := 0; i < rounds; i++ {
+		fs, _ := examine(c, spec, x, t, o)
+		for _, g := range fs {
+			if g.eval == f.eval && g.kind == f.kind {
+				return g, true
+			}
 		}
 	}
 	return finding{}, false
@@ -774,6 +781,11 @@ func shrink(c *core.Ctx, spec gens.JPExpr, t *tree, f finding, depth int) (gens.
 
 func signature(spec gens.JPExpr, t *tree, f finding) string {
 	f1 := spec[1]
+	if last := spec[len(spec)-1]; len(spec) > 2 && last.RootFilter() {
+		// a $-rooted filter cannot be re-rooted by the shrinker: such cases are
+		// keyed by the filter, whatever precedes it
+		return core.Sig(f.eval, "filter-with-$", gens.ReprClass(f.repr), "pos=last", "-", f.kind)
+	}
 	parts := []string{f.eval, f1.K, gens.ReprClass(f.repr)}
 	if len(spec) == 2 {
 		parts = append(parts, "pos=last", gens.FragBound(f1, t.simple))
@@ -805,6 +817,13 @@ func report(c *core.Ctx, spec gens.JPExpr, t *tree, fs []finding) {
 		if explained {
 			c.Add("failures_reproduced_by_a_proper_prefix_reported_there", 1)
 			continue
+		}
+		if g.repr != "simple" {
+			// the shrunk case may fail on the simple form as well (the original
+			// did not, e.g. because of the map order it met): key it there
+			if gs, ok := reproduces(c, s, st, finding{eval: g.eval, repr: "simple", kind: g.kind}); ok {
+				g = gs
+			}
 		}
 		x := s.Build()
 		cs := caseT{Path: s, Text: x.String(), Data: st.encoded(), Repr: g.repr, Eval: g.eval, Kind: g.kind}
